@@ -39,6 +39,7 @@ package vm
 //@   ensures invalid-rejected [C09 C12]: !ok ==> n == 0 && err != nil && err != errStopToken && err != ErrExecutionReverted
 //@   ensures no-return-data [C12]: ret == nil
 //@   ensures pops-four [C12]: len(scope.Stack.data) == old(len(scope.Stack.data)) - 4
+//@   ensures work-bounded [C20]: work <= old(work) + 256
 //@   modifies vm.Stack.data, cell:[]byte, map:map[uint64][][]byte, vm.StorageKey.changes, vm.StorageKey.nodeType
 //@   witness s0: top(scope, 0)
 //@   witness s1: top(scope, 1)
@@ -90,6 +91,7 @@ package vm
 //@   ensures invalid-rejected [C09 C12]: !valid ==> n == 0 && err != nil && err != errStopToken && err != ErrExecutionReverted
 //@   ensures no-return-data [C12]: ret == nil
 //@   ensures pops-two [C12]: len(scope.Stack.data) == old(len(scope.Stack.data)) - 2
+//@   ensures work-bounded [C20]: work <= old(work) + 4096
 //@   modifies vm.Stack.data, cell:[]byte, map:map[uint64][][]byte, vm.StorageKey.changes, vm.StorageKey.nodeType, vm.EVMInterpreter.hasher, vm.EVMInterpreter.hasherBuf
 //@   witness s0: top(scope, 0)
 //@   witness s1: top(scope, 1)
@@ -115,6 +117,7 @@ package vm
 //@   verify
 //@   safety [C03]
 //@   requires protocol: opProtocol(interpreter, scope) && len(scope.Stack.data) >= 6
+//@   ensures work-bounded [C20]: work <= old(work) + 4096
 //@   witness s0: top(scope, 0)
 //@   witness s1: top(scope, 1)
 //@   witness s2: top(scope, 2)
@@ -142,6 +145,7 @@ package vm
 //@   verify
 //@   safety [C03]
 //@   requires protocol: opProtocol(interpreter, scope) && len(scope.Stack.data) >= 5
+//@   ensures work-bounded [C20]: work <= old(work) + 4096
 //@   witness s0: top(scope, 0)
 //@   witness s1: top(scope, 1)
 //@   witness s2: top(scope, 2)
@@ -178,6 +182,7 @@ package vm
 //@   verify
 //@   safety [C03]
 //@   requires args: memPtr != nil && mem != nil
+//@   ensures work-bounded [C20]: work <= old(work) + 256
 //@   witness ptr: *memPtr
 //@   witness-bytes mem 512: mem.store
 //@ end
@@ -186,6 +191,7 @@ package vm
 //@   verify
 //@   safety [C03 C14]
 //@   requires idx: index == 0 || index == 1
+//@   ensures work-bounded [C20]: work <= old(work)
 //@   witness-bytes input 256: input
 //@   witness index: index
 //@ end
@@ -193,12 +199,14 @@ package vm
 //@ func (*vm.aspcontext).Run
 //@   verify
 //@   safety [C03 C14]
+//@   ensures work-bounded [C20]: work <= old(work) + 256
 //@   witness-bytes input 512: input
 //@ end
 
 //@ func (*vm.userOpSender).Run
 //@   verify
 //@   safety [C03 C14]
+//@   ensures work-bounded [C20]: work <= old(work) + 256
 //@   witness-bytes input 512: input
 //@ end
 
@@ -206,6 +214,7 @@ package vm
 //@   verify
 //@   safety [C03 C14]
 //@   requires recv: c != nil
+//@   ensures work-bounded [C20]: work <= old(work) + 256
 //@   witness-bytes input 512: input
 //@   witness ctxnil: c.ctx == nil
 //@ end
